@@ -154,6 +154,33 @@ fn boundary_texts() -> Vec<(String, &'static str)> {
     v
 }
 
+/// Programs whose *number of lines* crosses the powers of two an implementation may count in
+/// (u8 / u16 line or entry counters), while the image stays tiny or grows with the lines: n lines of
+/// one kind, followed by a label definition and references to it.
+pub fn long_texts(thorough: bool) -> Vec<String> {
+    let kinds = ["", " ; c", "\tNOP", ".ORG 0", "*STACKSIZE 32", ".DB 7", " .EQU k 5", "X:"];
+    let mut sizes: Vec<usize> = vec![1, 2, 126, 127, 128, 129, 253, 254, 255, 256, 257, 258, 511, 512, 513, 1023, 1024, 1025, 4095, 4096, 4097];
+    let big: Vec<usize> = if thorough { vec![32767, 32768, 32769, 65533, 65534, 65535, 65536, 65537, 65538, 131073] } else { vec![65534, 65535, 65536, 65537] };
+    let mut v = vec![];
+    for (ki, k) in kinds.iter().enumerate() {
+        sizes.retain(|n| *n <= 4097);
+        if ki < 2 || thorough {
+            sizes.extend(big.iter().cloned());
+        }
+        for n in &sizes {
+            let mut t = String::with_capacity(n * (k.len() + 1) + 64);
+            t.push_str("#! mrasm");
+            for _ in 0..*n {
+                t.push('\n');
+                t.push_str(k);
+            }
+            t.push_str("\nL:\n JR l\n LD R0, L\n ST (L), R1");
+            v.push(t);
+        }
+    }
+    v
+}
+
 // ---------------------------------------------------------------------------------------------
 // C02
 
@@ -226,7 +253,7 @@ pub fn check_assemble(text: &str) -> Verdict {
     };
     let img = match refasm::assemble(&asm) {
         Ok(i) => i,
-        Err(_) => return Verdict::Pass, // outside the documented domain (backward .ORG, > 240 bytes, duplicate names)
+        Err(_) => return Verdict::Pass, // outside the documented domain (backward .ORG, > 240 bytes)
     };
     let bc = match catch(|| Translator::compile(&asm)) {
         Ok(b) => b,
@@ -239,7 +266,9 @@ pub fn check_assemble(text: &str) -> Verdict {
         if l != al {
             return Verdict::Fail("asm:line-identity".into(), format!("{}: line {} reported as {:?}, source line is {:?}", short(text), i + 1, l, al));
         }
-        if b != rb {
+        // bytes that refer to a name defined twice with different values are not constrained
+        let differs = b.len() != rb.len() || b.iter().zip(rb).zip(&img.mask[i]).any(|((x, y), constrained)| *constrained && x != y);
+        if differs {
             let kind = match al {
                 Line::Instruction(ins, _) => {
                     let s = format!("{:?}", ins);
@@ -255,7 +284,8 @@ pub fn check_assemble(text: &str) -> Verdict {
     }
     let flat: Vec<u8> = bc.bytes().cloned().collect();
     let rflat: Vec<u8> = img.lines.iter().flatten().cloned().collect();
-    if flat != rflat {
+    let mflat: Vec<bool> = img.mask.iter().flatten().cloned().collect();
+    if flat.len() != rflat.len() || flat.iter().zip(&rflat).zip(&mflat).any(|((x, y), c)| *c && x != y) {
         return Verdict::Fail("asm:image".into(), format!("{}: image differs", short(text)));
     }
     Verdict::Pass
@@ -347,6 +377,24 @@ pub fn check_roundtrip(text: &str) -> (Verdict, u64) {
                 };
                 return (Verdict::Fail(format!("fmt:line-roundtrip:{}", kind), format!("line {:?} renders as {} and parses back as {:?}", l, short(&t), other.map(|a| a.lines.first().cloned()).map_err(|e| e.to_string().chars().take(120).collect::<String>()))), lines_checked);
             }
+            Err(p) => return (Verdict::Fail(format!("parser:{}", panic_signature(&p)), p), lines_checked),
+        }
+    }
+    // (c) the program pane and the byte-code listing are built from the translator's line list
+    // (ByteCode::lines): rendered line by line under the header it must parse back to the same
+    // program.  A compile that panics is C06's subject (known findings), not judged here.
+    if let Ok(bc) = catch(|| Translator::compile(&asm)) {
+        let mut t = String::from("#! mrasm");
+        for (l, _) in &bc.lines {
+            t += &format!("\n{}", l);
+        }
+        match catch(|| AsmParser::parse(&t)) {
+            Ok(Ok(a2)) => {
+                if a2.lines != asm.lines {
+                    return (Verdict::Fail("fmt:pane-roundtrip".into(), format!("{}: the program pane shows {} which parses back differently: {}", short(text), short(&t), first_diff(&a2, &asm))), lines_checked);
+                }
+            }
+            Ok(Err(e)) => return (Verdict::Fail("fmt:pane-rendering-rejected".into(), format!("{}: the program pane shows {} which the parser rejects: {}", short(text), short(&t), e.to_string().chars().take(160).collect::<String>())), lines_checked),
             Err(p) => return (Verdict::Fail(format!("parser:{}", panic_signature(&p)), p), lines_checked),
         }
     }
@@ -576,6 +624,28 @@ pub fn run(ctx: &Ctx, which: Which) -> Evidence {
                 ev.sample(json!({"part": "enumerated-shape", "line": s.to_string()}));
             }
         }
+    }
+
+    // ---- long programs (all four properties): line counts around 2^7, 2^8, ... 2^16
+    {
+        let texts = long_texts(ctx.tier == Tier::Thorough);
+        let res = par_chunks(ctx.threads, texts.len(), |k| {
+            let t = &texts[k];
+            match check_text(t, None) {
+                Verdict::Fail(s, d) => Some((s, d)),
+                Verdict::Pass => None,
+            }
+        });
+        for (k, r) in res.into_iter().enumerate() {
+            ev.evaluations += 1;
+            ev.nontrivial(&(0x10E6u32, k));
+            if let Some((s, d)) = r {
+                // (a listed finding is recognised by its signature in finish())
+                let lines = texts[k].lines().count();
+                ev.violation("text", &s, d, json!({"text": texts[k], "class": format!("long-program:{}-lines", lines)}));
+            }
+        }
+        ev.class("enumerated:long-programs", texts.len() as u64);
     }
 
     // ---- generated parts
